@@ -383,6 +383,9 @@ fn store_return_data(
         let polling_interval = vm.watchdog().poll_every();
 
         for (count, internal_offset) in (0..size_limit).step_by(32).enumerate() {
+            #[cfg(sle_verif)]
+            crate::verif::emit(crate::verif::Event::LoopIter { site: "op::call_return" });
+
             // If we have been told to stop, stop and return an error
             if count % polling_interval == 0 && vm.watchdog().should_stop() {
                 Err(Error::StoppedByWatchdog).locate(instruction_pointer)?;
